@@ -1,5 +1,6 @@
 mod c13;
 mod c17;
+mod c18;
 mod cli_run;
 mod cli_world;
 mod corpus;
@@ -19,6 +20,7 @@ fn sim_for(id: &str) -> Box<dyn Simulation> {
     "C10" => Box::new(edit_world::EditSim),
     "C13" => Box::new(c13::C13Sim),
     "C17" => Box::new(c17::C17Sim),
+    "C18" => Box::new(c18::C18Sim),
     _ => {
       eprintln!("HARNESS-ERROR: no simulation for property {id}");
       std::process::exit(2)
